@@ -231,15 +231,28 @@ def _roundtrip_worker(rank, n, tier):
     boundary = (0, 1, 32767, 32768, 65534, 65535)
     comps = ('hue', 'saturation', 'brightness', 'kelvin')
 
-    def one(color):
+    # the same after earlier commands in the run (a colour was already sent, another light was read), per unit mode
+    later = {}
+    for text in ('hue 10 saturation 20 brightness 30 kelvin 4000 set "b" get "a" set "b"',
+                 'units raw hue 10 saturation 20 brightness 30 kelvin 4000 set "b" set "a" get "a" set "b"',
+                 'hue 10 saturation 20 brightness 30 kelvin 4000 set "b" get "b" on "b" get "a" set "b" set "s" zone 1',
+                 'units raw get "b" set "b" get "a" set "b"'):
+        p2 = Parser()
+        assert p2.parse(text)
+        later[text] = p2.get_program()
+
+    def one(color, text=None):
         st['cases'] += 1
         w.reset()
         w.by_label['a'].color = list(color)
-        res = w.run_program(program, cap=100, machine=m)
+        if text is not None and 'set "a"' in text:
+            # the script itself overwrites the light before reading it back: what it reads is what it wrote
+            color = (10, 20, 30, 4000)
+        res = w.run_program(program if text is None else later[text], cap=100, machine=m)
         sets = [e for e in res.trace if e[0] == 'dev' and e[1] == 'b' and e[2] == 'set_color']
-        if res.abort or len(sets) != 1:
+        if res.abort or len(sets) != (1 if text is None else 2):
             return ('roundtrip-run-problem', repr((res.abort, res.trace)))
-        got = sets[0][3]
+        got = sets[-1][3]
         ok = all(type(g) is int for g in got) and got[1:] == tuple(color[1:]) and \
             (got[0] == color[0] or {got[0], color[0]} == {0, 65535})
         if not ok:
@@ -263,6 +276,16 @@ def _roundtrip_worker(rank, n, tier):
                 st['viol'][bad[0]] = [1, 'get "a" set "b"', color, bad[1]]
             else:
                 cur[0] += 1
+    if rank < len(later):
+        text = sorted(later)[rank]
+        for color in [c + (k,) for c in itertools.product(boundary, repeat=3) for k in (0, 2700, 65535)]:
+            bad = one(color, text)
+            if bad is not None:
+                cur = st['viol'].get(bad[0])
+                if cur is None:
+                    st['viol'][bad[0]] = [1, text, color, bad[1]]
+                else:
+                    cur[0] += 1
     return st
 
 
